@@ -609,11 +609,132 @@ def r14d(ctx):
         raise AnalysisError(f"R14d fixture: rewrite detector broken: {got}")
 
 
+# ------------------------------------------------------------------ R14e
+def _local_types(repo, f: FuncInfo) -> dict[str, str]:
+    """name -> element class of the locals of f, from the return annotations of the methods that produce them (Iterator[Row], list[Cell], Cell | None …)."""
+    env: dict[str, str] = {}
+    if f.cls is not None:
+        env["self"] = f.cls.name
+
+    def result_class(call: ast.Call) -> str | None:
+        if not isinstance(call.func, ast.Attribute):
+            return None
+        recv = call.func.value
+        cname = env.get(recv.id) if isinstance(recv, ast.Name) else None
+        if cname is None:
+            return None
+        c = repo.find_class(cname)
+        g = c.lookup(call.func.attr) if c is not None else None
+        if g is None or g.node.returns is None:
+            return None
+        names = [x.id for x in ast.walk(g.node.returns) if isinstance(x, ast.Name) and x.id not in ("Iterator", "Iterable", "list", "tuple", "None", "Optional", "Any")]
+        names = [n_ for n_ in names if repo.find_class(n_) is not None]
+        return names[0] if len(set(names)) == 1 else None
+
+    for _ in range(3):
+        for n in walk_no_nested(f.node):
+            if isinstance(n, (ast.For, ast.comprehension)) and isinstance(n.target, ast.Name) and isinstance(n.iter, ast.Call):
+                rc = result_class(n.iter)
+                if rc:
+                    env[n.target.id] = rc
+            elif isinstance(n, ast.Assign) and len(n.targets) == 1 and isinstance(n.targets[0], ast.Name) and isinstance(n.value, ast.Call):
+                rc = result_class(n.value)
+                if rc:
+                    env[n.targets[0].id] = rc
+    return env
+
+
+def _decoding_props(repo) -> dict[str, dict[str, str]]:
+    """property name -> {class name: how} for the properties whose getter turns the strings 'true'/'false' into booleans:
+    PropDef-generated getters (Element._generic_attrib_getter) and explicit getters returning self.get_attribute(…)."""
+    from ..registry import element_classes, property_names
+    out: dict[str, dict[str, str]] = {}
+    for c in element_classes(repo):
+        for name, kind in property_names(repo, c).items():
+            if kind == "propdef":
+                out.setdefault(name, {})[c.name] = "PropDef (generic getter)"
+            elif kind in ("property", "property-ro"):
+                g = c.lookup(name, "getter")
+                if g is not None and any(isinstance(x, ast.Call) and call_name(x) == "get_attribute" for r in walk_no_nested(g.node) if isinstance(r, ast.Return) and r.value is not None
+                                         for x in ast.walk(r.value)):
+                    out.setdefault(name, {})[c.name] = "getter returns get_attribute(…)"
+    return out
+
+
+def r14e(ctx):
+    """An identifier is never compared with a decoded attribute.
+
+    `Element.get_attribute` and the PropDef-generated getters return the *boolean* True / False for the attribute strings "true" / "false".
+    A lookup that filters in Python — `mark.name == name`, `style != row.style` — therefore never finds an object named "true" or "false",
+    while the XPath lookups compare the raw attribute.  Rule: where a parameter of a function is compared (==, !=, in) with an attribute
+    property of another element, every class that element may have reads that property as a plain string (get_attribute_string).
+    """
+    repo = ctx.repo
+    ctx.rule("R14e", "no identifier parameter is compared with an attribute property whose getter decodes 'true'/'false' to bool", floor=3)
+    dec = _decoding_props(repo)
+    n = 0
+    for f in repo.all_funcs():
+        params = {a.arg for a in f.all_params()} - {"self", "cls"}
+        if not params:
+            continue
+        types = None
+        for c in ast.walk(f.node):
+            if not (isinstance(c, ast.Compare) and len(c.ops) == 1 and isinstance(c.ops[0], (ast.Eq, ast.NotEq, ast.In, ast.NotIn))):
+                continue
+            for a, b in ((c.left, c.comparators[0]), (c.comparators[0], c.left)):
+                if not (isinstance(a, ast.Name) and a.id in params and isinstance(b, ast.Attribute) and isinstance(b.value, ast.Name) and b.value.id not in ("self", "cls")):
+                    continue
+                prop = b.attr
+                if prop not in dec and not any(prop in property_names_cache(repo).get(cn, ()) for cn in ()):
+                    # not an attribute property of any element class (a plain Python attribute)
+                    if prop not in all_props(repo):
+                        continue
+                n += 1
+                if types is None:
+                    types = _local_types(repo, f)
+                cname = types.get(b.value.id)
+                if cname:
+                    # the declared class and everything derived from it (a list[Element] may hold any element)
+                    base = repo.find_class(cname)
+                    culprits = {k: v for k, v in dec.get(prop, {}).items() if (kc := repo.find_class(k)) is not None and base is not None and kc.is_subclass_of(base)}
+                else:
+                    culprits = dec.get(prop, {})
+                ok = not culprits
+                ctx.instance("R14e", f"{f.file}:{f.ident}", f"`{norm(c, 40)}`: {b.value.id} is a {cname or 'element of unknown class'}; .{prop} " +
+                             ("read as a string" if ok else f"decoded by {sorted(culprits)[:3]}"), ok=ok, nontrivial=True, line=c.lineno)
+                if not ok:
+                    k0 = sorted(culprits)[0]
+                    ctx.report("R14e", f, c, norm(c, 60),
+                               f"{f.ident} compares the identifier `{a.id}` with `{norm(b, 30)}`, whose getter ({k0}: {culprits[k0]}) returns the boolean True/False for the "
+                               f"attribute strings 'true'/'false': an object named \"true\" or \"false\" is never matched, although it was stored under that name")
+    ctx.extra["bool_decoding_properties"] = {k: len(v) for k, v in sorted(dec.items())}
+    if n == 0:
+        raise AnalysisError("R14e: no comparison of a parameter with an attribute property found")
+
+
+_ALLP: dict[int, set] = {}
+
+
+def all_props(repo) -> set[str]:
+    if "p" not in repo.__dict__.setdefault("_odfsa_allprops", {}):
+        from ..registry import element_classes, property_names
+        s_: set[str] = set()
+        for c in element_classes(repo):
+            s_ |= set(property_names(repo, c))
+        repo.__dict__["_odfsa_allprops"]["p"] = s_
+    return repo.__dict__["_odfsa_allprops"]["p"]
+
+
+def property_names_cache(repo):
+    return {}
+
+
 def run(ctx):
     r14a(ctx)
     r14c(ctx)
     r14b(ctx)
     r14d(ctx)
+    r14e(ctx)
 
 
 from ..selftest import Seed, unparse_seed  # noqa: E402
@@ -621,6 +742,9 @@ from ..selftest import Seed, unparse_seed  # noqa: E402
 _XQ = "src/odfdo/utils/xpath_query.py"
 _EL = "src/odfdo/element.py"
 SEEDS = [
+    Seed("reference mark looked up by comparing the decoded name in Python", "fault", _EL, '        if name:\n            request = (\n                f"descendant::text:reference-mark-start"\n                f"[@text:name={xpath_string_literal(name)}] "\n                f"| descendant::text:reference-mark"\n                f"[@text:name={xpath_string_literal(name)}]"\n            )\n            return self._filtered_element(request, position=0)\n', '        if name:\n            marks = [mark for mark in self.get_reference_marks() if mark.name == name]\n            return marks[0] if marks else None\n', "R14e"),
+    Seed("Row.style decodes booleans again", "fault", "src/odfdo/row.py", '        return self.get_attribute_string("table:style-name")\n\n    @style.setter\n    def style(self, style: str | Element) -> None:\n        self.set_style_attribute("table:style-name", style)\n\n    @property\n    def width',
+         '        return self.get_attribute("table:style-name")\n\n    @style.setter\n    def style(self, style: str | Element) -> None:\n        self.set_style_attribute("table:style-name", style)\n\n    @property\n    def width', "R14e"),
     Seed("xpath_compile normalises the white space of the whole query", "fault", _EL,
          "    return XPath(path, namespaces=ODF_NAMESPACES, regexp=False)", "    return XPath(\" \".join(path.split()), namespaces=ODF_NAMESPACES, regexp=False)", "R14d"),
     Seed("get_bookmark trims the name it looks up", "fault", _EL,
